@@ -5,7 +5,7 @@ import os
 
 ROOT = os.path.dirname(os.path.dirname(os.path.abspath(__file__)))
 
-HOOK_COMMITS = []  # filled in as hook commits land in /repo
+HOOK_COMMITS = ["4b32732", "5fd760e"]  # hook commits in /repo (build tag verif)
 
 CLAIMED = {
     "C06": dict(
@@ -32,6 +32,30 @@ CLAIMED = {
         technique="TLA+ specification (AckQueue) model-checked with TLC; state-graph replay + TLC trace validation (AckQueueTrace)",
         design="6 C13"),
 }
+
+CLAIMED["C14"] = dict(
+    text="TLC explores all interleavings of the Ring specification (service/buffer.go at lock / condition-variable / cursor "
+         "granularity, every operation kind, Size 4 units) and checks Fifo, NoOverwrite, Bounded, ReservedFree. The real buffer "
+         "is bound to it by forcing TLC-generated transition-cover schedules on it through the verif yield points (gated "
+         "replay): consumed bytes are compared with a position-dependent stream and the cursors with the specification after "
+         "every step. Free-running producer/consumer pairs (byte granularity, 16 KiB and 256 KiB rings, all operation kinds) are "
+         "recorded and validated by TLC against RingStreamTrace.",
+    note="Trusted: TLC, the yield hooks (add-only), the replayer (harness/ring.go). Model bounds: Size 4, Block 2, chunks <= 2 units, "
+         "Total <= 7 units; one producer and one consumer. The hand-over inside sync.Cond.Wait cannot be gated (Eager regime for replay; "
+         "TLC checks the unrestricted model).",
+    technique="TLA+ specification (Ring) model-checked with TLC; TLC-generated schedules replayed through scheduler gates; TLC trace validation (RingStreamTrace)",
+    design="6 C14")
+CLAIMED["C15"] = dict(
+    text="TLC checks deadlock freedom of the Ring specification with and without closers, that both mutexes are free whenever nobody "
+         "is inside the buffer, and termination / Close ~> returned under weak fairness; with each named deviation of the pinned "
+         "code switched on TLC finds the deadlock (vacuity guard). Every transition of the replayable regime that involves a lock, "
+         "wait, wake, broadcast or end-of-stream return is forced on the real buffer: the yield point reached next, parking "
+         "(observed through a TryLock probe), call results, cursors and both mutex probes are compared after every step; a step the "
+         "specification enables must complete.",
+    note="Trusted: TLC, yield hooks, replayer. A blocked step counts only after 3-fold reproduction with a 4 s deadline (normal "
+         "completion is microseconds). Same model bounds as C14.",
+    technique="TLA+ specification (Ring) model-checked with TLC incl. liveness; TLC-generated schedules replayed through scheduler gates",
+    design="6 C15")
 
 NOT_APPLICABLE = {
     "C18": "data-race freedom is a property of individual memory accesses under the Go memory model; a TLA+ specification "
